@@ -84,6 +84,7 @@ func runC05(c *Ctx) {
 	}
 	c05Halving(c, "C05-D5")
 	c05ExtendPost(c)
+	c05SketchCtors(c, "C05-D9")
 	c04Shift(c, "C05-D5") // the collapsing stores reuse the dense window-moving primitives on every non-collapsing and shifting path
 	c05EmptyEdge(c)
 	for _, ct := range cts {
@@ -1135,4 +1136,53 @@ func c05ExtendPost(c *Ctx) {
 		}
 	}
 	c.R.floor(rule, "extendRange paths", n, 9)
+}
+
+// c05SketchCtors (C05-D9): the named sketch constructors give BOTH sides a store of the kind their name
+// announces — two separate calls of the same store constructor with the same bin limit. A collapsing-highest
+// sketch whose negative side collapses lowest behaves identically until the store collapses, and then loses the
+// wrong end of the negative values.
+func c05SketchCtors(c *Ctx, rule string) {
+	want := map[string]string{
+		"LogCollapsingLowestDenseDDSketch":  "NewCollapsingLowestDenseStore",
+		"LogCollapsingHighestDenseDDSketch": "NewCollapsingHighestDenseStore",
+		"LogUnboundedDenseDDSketch":         "NewDenseStore",
+	}
+	n := 0
+	for ctor, storeCtor := range want {
+		f := c.P.Func(pkgSketch, ctor)
+		if f == nil {
+			continue // an API that does not exist is not this rule's business
+		}
+		n++
+		paths, _ := exec(c, f, nil, 1)
+		ok := false
+		found := "no success path"
+		for _, p := range paths {
+			if p.RetNil(1) != 1 {
+				continue
+			}
+			r := p.RetT[0]
+			var pos, neg *Term
+			if r.Op == "call" && strings.HasSuffix(r.Sym, ".NewDDSketch") && len(r.Args) == 3 {
+				pos, neg = r.Args[1], r.Args[2]
+			}
+			found = fmt.Sprintf("positive=%v negative=%v", pos, neg)
+			good := func(t *Term) bool {
+				t = stripConv(t)
+				if t == nil || t.Op != "call" || !strings.HasSuffix(t.Sym, "."+storeCtor) {
+					return false
+				}
+				for i, a := range t.Args {
+					if !a.isParam(1) || i > 0 {
+						return false
+					}
+				}
+				return true
+			}
+			ok = pos != nil && neg != nil && good(pos) && good(neg) && !sameVal(pos, neg)
+		}
+		c.R.check(ok, rule, ctor+"/both-sides-same-kind", shortFn(f), c.fpos(f), "NewDDSketch(mapping, "+storeCtor+"(…), "+storeCtor+"(…)) with two separate stores and the caller's bin limit", found)
+	}
+	c.R.floor(rule, "named dense sketch constructors", n, 3)
 }
